@@ -44,9 +44,14 @@ fn ts(cfg: usize, p: &Value) -> jiff::Timestamp {
 }
 
 fn claims_of(cfg: usize, c: &Value) -> RegisteredClaims {
+    claims_with_iat(cfg, c, None)
+}
+
+/// the same claims with an `iat` claim: the time validators speak about exp and nbf only, so the verdict must not depend on it
+fn claims_with_iat(cfg: usize, c: &Value, iat: Option<(i64, i64)>) -> RegisteredClaims {
     let s = |k: &str| c[k].as_array().and_then(|a| a.first()).map(|v| v.as_str().unwrap().to_string());
     let t = |k: &str| c[k].as_array().and_then(|a| a.first()).map(|v| ts(cfg, v));
-    RegisteredClaims { iss: s("iss"), sub: s("sub"), aud: s("aud"), exp: t("exp"), nbf: t("nbf"), iat: None, jti: None }
+    RegisteredClaims { iss: s("iss"), sub: s("sub"), aud: s("aud"), exp: t("exp"), nbf: t("nbf"), iat: iat.map(|(c, f)| ts(cfg, &json!([c, f]))), jti: None }
 }
 
 fn build(cfg: usize, e: &Value) -> DynV {
@@ -139,18 +144,39 @@ pub fn run(rec: &mut Recorder, cases: &str, thorough: bool, seed: u64) -> (u64, 
             let c = &claims[ci];
             let cfg = (ei + k) % TIME_CFGS.len();
             let outer = Outer { x: claims_of(cfg, c), y: claims_of(cfg, &empty) };
-            let r = run_top(cfg, e, &outer);
-            rec.emit(json!({"fn":"accepts","expr":e,"x":c,"y":empty,"cfg":cfg,"got":r.is_ok(),"errc":r.as_ref().err().map(errc).unwrap_or("")}));
+            // a validator that panics is an outcome (neither accept nor a claims error), not a failure of the harness
+            let r = std::panic::catch_unwind(std::panic::AssertUnwindSafe(|| run_top(cfg, e, &outer)));
+            let (got, ec) = match &r {
+                Ok(Ok(())) => (true, ""),
+                Ok(Err(e)) => (false, errc(e)),
+                Err(_) => (false, "panic"),
+            };
+            rec.emit(json!({"fn":"accepts","expr":e,"x":c,"y":empty,"cfg":cfg,"got":got,"errc":ec}));
+            // for the simplest expressions also with an `iat` in the future / in the past / far away (same verdict demanded)
+            if d <= 1 {
+                for iat in [(2i64, 0i64), (-2, 0), (1, 1), (9, 0)] {
+                    let o2 = Outer { x: claims_with_iat(cfg, c, Some(iat)), y: claims_of(cfg, &empty) };
+                    let r = std::panic::catch_unwind(std::panic::AssertUnwindSafe(|| run_top(cfg, e, &o2)));
+                    let (got, ec) = match &r {
+                        Ok(Ok(())) => (true, ""),
+                        Ok(Err(e)) => (false, errc(e)),
+                        Err(_) => (false, "panic"),
+                    };
+                    rec.emit(json!({"fn":"accepts","expr":e,"x":c,"y":empty,"cfg":cfg,"got":got,"errc":ec,"iat":[iat.0, iat.1]}));
+                    n += 1;
+                }
+            }
             n += 1;
             // a sample goes through a real unseal on every backend
-            if e["op"] != "map" && (ei * 31 + k) % (if thorough { 97 } else { 397 }) == 0 {
+            let collection = matches!(e["op"].as_str(), Some("slice") | Some("vec") | Some("and") | Some("box") | Some("rc") | Some("arc"));
+            if e["op"] != "map" && (ei * 31 + k) % (if thorough { 97 } else if collection { 61 } else { 397 }) == 0 {
                 for (bi, be) in ALL.iter().enumerate() {
                     if *be == "v1" && !thorough && (ei + k) % 5 != 0 {
                         continue; // RSA key generation is slow
                     }
                     let public = (ei + k + bi) % 2 == 0 && *be != "v1";
                     let cl = claims_of(cfg, c);
-                    let (ok, ec, same) = crate::with_backend!(*be, through_unseal(cfg, e, &cl, public));
+                    let (ok, ec, same) = std::panic::catch_unwind(std::panic::AssertUnwindSafe(|| crate::with_backend!(*be, through_unseal(cfg, e, &cl, public)))).unwrap_or((false, "panic", false));
                     rec.emit(json!({"fn":"unseal","be":be,"purpose": if public {"public"} else {"local"},"expr":e,"x":c,"y":empty,"cfg":cfg,"got":ok,"errc":ec,"same":same}));
                     nu += 1;
                 }
